@@ -23,7 +23,9 @@ from .. import asmgen, build, driver, hyp, toolchain, xcase, xgen, xlang, xref
 RULE = ('histories of 1-10 operations over {write accepted X/asm source (G-X in-domain programs, tours), write rejected source (syntax error, '
         'unknown symbol/label, invalid syscall, stray token), pre-create output, hexasm/xcmp with argument shapes -o f src | src -o f | --output f src | '
         'src --output f | default, xrun, hexsim}. Non-trivial = a history with a rejected compile after an accepted one, or a non-default '
-        'argument shape, or an exit value outside 0-255; distinct by hash of the history.')
+        'argument shape (a quarter of them may name an output that cannot be created), or an exit value outside 0-255; distinct by hash of the history.')
+# output names that cannot be opened for writing: inside a directory that does not exist, and an existing directory (created by run_history)
+UNWRITABLE = ['no-such-dir/out.bin', 'a-directory']
 SHAPES = ['default', '-o-before', '-o-after', '--output-before', '--output-after']
 BAD_X = ['proc main() is {\n', 'proc main() is foo := 1\n', 'proc main() is 3(0)\n', 'proc main() is x := \n', 'proc main() is skip }\n',
          'val a = ;\nproc main() is skip\n', 'proc main() is "unterminated\n', 'proc 5() is skip\n', 'proc main() is f(1)\n']
@@ -136,7 +138,7 @@ def gen_history(rng, tier):
         elif x < 0.8:
             name, kind, acc, text, info = rng.choice(have)
             ops.append(dict(op='compile', tool='xcmp' if kind == 'x' else 'hexasm', src=name, kind=kind, accepted=acc, text=text,
-                            shape=rng.choice(SHAPES), out=rng.choice(['out.bin', 'o2', 'a.out']), info=info))
+                            shape=rng.choice(SHAPES), out=rng.choice(['out.bin', 'o2', 'a.out'] + (UNWRITABLE if rng.random() < 0.25 else [])), info=info))
         elif x < 0.9:
             cands = [h for h in have if h[1] == 'x']
             if cands:
@@ -153,7 +155,7 @@ def gen_history(rng, tier):
 def run_history(ops, scratch):
     """Returns '' or the description of the first violated invariant, plus class labels."""
     d = os.path.join(scratch, 'work')
-    os.makedirs(d, exist_ok=True)
+    os.makedirs(os.path.join(d, 'a-directory'), exist_ok=True)
     labels = set()
     accepted_before = False
     for step, op in enumerate(ops):
@@ -188,7 +190,16 @@ def run_history(ops, scratch):
                 acc = expected_binary(op['kind'], op['text'], scratch) is not None
                 if acc:
                     labels.add('odd-source-accepted')
-            if acc:
+            if acc and shape != 'default' and out in UNWRITABLE:
+                # "on any error": the source is fine but the binary cannot be left in the named file
+                labels.add('unwritable-output')
+                if r.returncode == 0:
+                    return '%s: the output file cannot be created but the exit status is 0 (stderr %r)' % (where, r.stderr[:100]), labels
+                if not r.stderr.strip():
+                    return '%s: the output file cannot be created but there is no diagnostic' % where, labels
+                if before != after:
+                    return '%s: the output file cannot be created but the directory changed: %s' % (where, [n for n in set(before) | set(after) if before.get(n) != after.get(n)]), labels
+            elif acc:
                 accepted_before = True
                 if r.returncode != 0:
                     return '%s: accepted source but exit status %d (%r)' % (where, r.returncode, r.stderr[:120]), labels
